@@ -484,6 +484,7 @@ class DocGen:
     def directives_text(self, vars_):
         r = self.r
         if self.note_directive and vars_ is not None and r.random() < 0.2:
+            if r.random() < 0.4: return ' @note(t: "k")', True          # no variable involved
             v = self.new_var(N("String"), vars_)
             return f" @note(t: ${v})", True
         if r.random() > 0.15: return "", True
